@@ -132,6 +132,9 @@ def roundHalfAway (m : Int) (d : Nat) : Int :=
   if m ≥ 0 then (m + d / 2) / d else -((-m + d / 2) / d)
 def truncDiv (m : Int) (d : Nat) : Int := if m ≥ 0 then m / d else -(-m / d)
 
+/-- does the mantissa fit `p` digits? -/
+def fitsDigits (m : Int) (p : Nat) : Bool := m.natAbs < 10 ^ p
+
 /-! ## DATEADD result type (transforms.py:254 `dateadd_date_cast`, :291) -/
 
 inductive DUnit where
@@ -176,6 +179,16 @@ def isNotDistinct {α} [DecidableEq α] (a b : Option α) : Bool :=
 def equalNullSpec {α} [DecidableEq α] (a b : Option α) : Bool :=
   if a.isNone && b.isNone then true else if a.isNone || b.isNone then false else a = b
 
+/-- the macro is created by `connect()` for its database (conn.py → macros.creation_sql), not by a CREATE DATABASE
+    statement (cursor.py:280-283 only creates the information-schema extensions) -/
+inductive DbOrigin where
+  | connect | createStatement
+deriving DecidableEq, Repr
+
+def equalNullAvailable : DbOrigin → Bool
+  | .connect => true
+  | .createStatement => false
+
 /-! ## VALUES column names (transforms.py:1313) -/
 
 def columnName (i : Nat) : List Char := "COLUMN".toList ++ natDigits (i + 1)
@@ -215,6 +228,10 @@ def randomImpl (calls : List RandArg) : RandOut :=
   match calls with
   | [] => { rewritten := [], seed := none }
   | c :: rest => { rewritten := true :: rest.map (fun _ => false), seed := match c with | .lit n => some n | _ => none }
+
+/-- `random` fires on every SELECT node that contains an `exp.Rand`, and the replacement itself contains one: a call
+    below `depth` nested SELECTs is wrapped `depth` times (once is right; twice overflows the BIGINT cast) -/
+def randomWraps (selectDepth : Nat) : Nat := selectDepth
 
 /-- every RANDOM call becomes a 64-bit integer; the statement is seeded iff a seed was given -/
 def randomSpecRewritten (calls : List RandArg) : List Bool := calls.map fun _ => true
